@@ -1162,6 +1162,27 @@ class Interp:
             for lo, hi, off in runs[-2::-1]:
                 t = z3.If(z3.And(c >= lo, c <= hi), c - off, t)
             return SStr([t]) if as_str else SInt(t)
+        if len(key) == 1 and len(cands) > 4 and all(
+                isinstance(d[k], str) and d[k].isdigit() and d[k].isascii() and str(int(d[k])) == d[k] for k in cands):
+            # single-character table of canonical decimal renderings of different widths ("0" .. "35"): the result is
+            # str(v) of the integer table value v - one ite chain, no fork per key
+            c = key.chars[0]
+            member = z3.Or(*[c == ord(k) for k in cands])
+            if not self.branch(SBool(member)):
+                if default is KeyError:
+                    raise Raised(KeyError("<sym>"))
+                return default
+            items = sorted((ord(k), int(d[k])) for k in cands)
+            runs = []
+            for ko, val in items:
+                if runs and runs[-1][1] == ko - 1 and runs[-1][2] == ko - val:
+                    runs[-1][1] = ko
+                else:
+                    runs.append([ko, ko, ko - val])
+            t = c - runs[-1][2]
+            for lo, hi, off in runs[-2::-1]:
+                t = z3.If(z3.And(c >= lo, c <= hi), c - off, t)
+            return self.str_of_int(SInt(t))
         for k in cands:
             eq = self.str_eq(key, k)
             if self.truthy(eq):
